@@ -125,6 +125,18 @@ def well_formed_cases(r: Run, keys):
     return out
 
 
+def gap_isotopes(keys):
+    """X[n] for every n around an element's isotope range that is NOT one of its isotopes: must be rejected"""
+    out = []
+    for sym, isos in keys.items():
+        if not isos or not sym[0].isupper():
+            continue
+        for n in range(max(1, min(isos) - 2), max(isos) + 3):
+            if n not in isos:
+                out += [f"{sym}[{n}]", f"{sym}[{n}]2", f"({sym}[{n}])2O"]
+    return out
+
+
 def malformed_cases(r: Run, wf):
     rng = random.Random(r.seed + 1)
     thorough = r.tier == "thorough"
@@ -155,6 +167,7 @@ def malformed_cases(r: Run, wf):
                 t.insert(pos, t[min(pos, len(t) - 1)] if t else "C")
             out.append("".join(t))
     out += ["".join(rng.choice(pool) for _ in range(rng.randint(8, 64))) for _ in range(3000 if thorough else 400)]
+    out += gap_isotopes(table_keys())
     out += ["C[14]2", "C[14]", "C[0]", "C[]", "C[]2", "Ac[0]", "C[65536]", "C[99999999999]", "C99999999999", "C2147483648",
             "(C)99999999999", "H)", "Xx", "H ", "H-2", "Hé", "H]", "C[13", "C[1[3]]", "()", "(())", "(", ")", "(C", "C)", "((C)",
             "C[13]x", "C[+13]", "C[-1]", "C(", "C2(", "C[13](", "e*", "e*1", "c", "h2o", "C²", "C[²]", "C٣", "(C)²",
@@ -260,7 +273,7 @@ def judge_parse(prop, wf, il, dl):
 def run_parse(r: Run, prop):
     keys = table_keys()
     wf = well_formed_cases(r, keys)
-    mal = malformed_cases(r, wf) if prop in ("C05",) else malformed_cases(r, wf)[:: 7]
+    mal = malformed_cases(r, wf) if prop in ("C05",) else malformed_cases(r, wf)[:: 7] + gap_isotopes(keys)[:: 5]
     cases = [(s, True) for s in wf] + [(s, False) for s in mal]
     lines = [f"parse\t{cps(s)}" for s, _ in cases]
     impl = r.impl("formula", lines, timeout=2400)
